@@ -118,6 +118,16 @@ Section Top.
     - unfold plive, p_init. rewrite map_map. exact Hws.
   Qed.
 
+  (** ** all implementations at once *)
+  Definition mergeable (i : impl) : bool := match i with Binary => false | _ => true end.
+
+  Theorem all_simulate (i : impl) sizes ops :
+    well_scoped K V (mergeable i) (all_live sizes) ops = true ->
+    accepts K V cmp eqv (empty_bags sizes) ops (run K V cmp eqv i sizes ops).
+  Proof.
+    destruct i; simpl; [apply binary_simulates | apply binomial_simulates | apply fibonacci_simulates].
+  Qed.
+
   (** ** the invariants hold in every reachable state *)
   Lemma init_pinv i (hinv : heap K V -> Prop) sizes :
     (forall s, hinv (h_new K V i s)) -> pinv hinv (p_init K V i sizes).
@@ -159,3 +169,59 @@ Section Top.
     - now rewrite init_plive.
   Qed.
 End Top.
+
+(** min and max orientation *)
+Theorem both_orientations {K V : Type} (cmp : K -> K -> Z) (eqv : V -> V -> bool) (TO : TotalOrder K cmp)
+        (i : impl) sizes ops :
+  well_scoped K V (mergeable i) (all_live sizes) ops = true ->
+  accepts K V cmp eqv (empty_bags sizes) ops (run K V cmp eqv i sizes ops) /\
+  accepts K V (fun a b => cmp b a) eqv (empty_bags sizes) ops (run K V (fun a b => cmp b a) eqv i sizes ops).
+Proof.
+  intros H. split.
+  - now apply all_simulate.
+  - apply all_simulate; [apply TotalOrder_reverse; exact TO | exact H].
+Qed.
+
+(** what an accepted Delete / Peek / Size / Merge means, spelled out *)
+Section Meaning.
+  Context {K V : Type} (cmp : K -> K -> Z) (eqv : V -> V -> bool).
+
+  Lemma delete_meaning B e B' :
+    spec_step K V cmp eqv B Delete (OEntry (Some e)) B' ->
+    In e B /\ (forall x, In x B -> (cmp (fst e) (fst x) <= 0)%Z) /\ Permutation B (e :: B').
+  Proof.
+    intros H. inversion H; subst. repeat split; auto.
+    eapply Permutation_in; [symmetry; eassumption | now left].
+  Qed.
+
+  Lemma delete_none_meaning B B' : spec_step K V cmp eqv B Delete (OEntry None) B' -> B = [] /\ B' = [].
+  Proof. intros H. inversion H; subst. auto. Qed.
+
+  Lemma peek_meaning B e B' :
+    spec_step K V cmp eqv B Peek (OEntry (Some e)) B' ->
+    In e B /\ (forall x, In x B -> (cmp (fst e) (fst x) <= 0)%Z) /\ B' = B.
+  Proof. intros H. inversion H; subst. auto. Qed.
+
+  Lemma size_meaning B n B' : spec_step K V cmp eqv B Size (ONat n) B' -> n = length B /\ B' = B.
+  Proof. intros H. inversion H; subst. auto. Qed.
+
+  Lemma contains_key_meaning B k b B' :
+    spec_step K V cmp eqv B (ContainsKey k) (OBool b) B' ->
+    (b = true <-> exists e, In e B /\ (cmp (fst e) k = 0)%Z) /\ B' = B.
+  Proof.
+    intros H. inversion H; subst. split; [|reflexivity].
+    rewrite existsb_exists. unfold has_key. split.
+    - intros (e & He & Hk). exists e. split; [exact He | now apply Z.eqb_eq].
+    - intros (e & He & Hk). exists e. split; [exact He | now apply Z.eqb_eq].
+  Qed.
+
+  Lemma merge_meaning P i j r P' :
+    pspec_step K V cmp eqv P (i, Merge j) r P' ->
+    exists Bi Bj B', i <> j /\ nth_error P i = Some (Some Bi) /\ nth_error P j = Some (Some Bj) /\
+                    Permutation B' (Bi ++ Bj) /\ r = ONone /\ P' = upd (upd P i (Some B')) j None.
+  Proof.
+    intros H. inversion H; subst.
+    - match goal with Hs : spec_step _ _ _ _ _ (Merge _) _ _ |- _ => inversion Hs end.
+    - eauto 10.
+  Qed.
+End Meaning.
